@@ -252,6 +252,9 @@ func (x *Exec) callContract(fr *Frame, st *State, ins ssa.Instruction, u *FuncUn
 		}
 	}
 	// effects
+	if !fr.spec {
+		x.bumpNow(st)
+	}
 	x.applyEffects(st, u, callee)
 	if len(u.C.Steps) > 0 {
 		// the callee performs atomic steps of its own: the caller's step counter is unknown afterwards
@@ -260,6 +263,14 @@ func (x *Exec) callContract(fr *Frame, st *State, ins ssa.Instruction, u *FuncUn
 	// results
 	res := x.freshVal(resT, "r_"+u.Key)
 	x.assumeWF(st, resT, res.L)
+	if !fr.spec {
+		lv := x.leaves(resT)
+		for k, l := range lv {
+			if l.Kind == LRef && l.Path != "#val" && !strings.HasSuffix(l.Path, "#val") && k < len(res.L) {
+				x.assumeAllocated(st, res.L[k])
+			}
+		}
+	}
 	if u.Post != nil {
 		pargs := append([]Val{}, args...)
 		if tt, ok := resT.(*types.Tuple); ok {
@@ -366,15 +377,14 @@ func (x *Exec) havocClassPrefix(st *State, prefix string) {
 		}
 	}
 	if !found {
-		// class never read so far in this unit: later reads under this state's epoch would see the
-		// entry value.  Force a private epoch to stay sound.
-		old := st.epoch
-		for c, s := range x.classSort {
-			if _, ok := st.heap[c]; !ok {
-				st.heap[c] = x.epochInit(old, c, s)
-			}
-		}
-		st.epoch = x.newEpoch()
+		// class never read so far in this unit: leaves of it first touched later must be fresh,
+		// every other class keeps its value: partial-havoc epoch on top of the current one
+		nw := x.now(st)
+		e := x.newEpoch()
+		e.parent = st.epoch
+		e.havoc = []string{prefix}
+		e.now = nw
+		st.epoch = e
 	}
 }
 
@@ -385,6 +395,7 @@ func (x *Exec) opaqueCall(fr *Frame, st *State, callee *ssa.Function, args []Val
 	if fr.spec {
 		return res
 	}
+	x.bumpNow(st)
 	if dynamic || callee == nil {
 		x.havocAll(st)
 		return res
@@ -633,6 +644,49 @@ func (x *Exec) special(fr *Frame, st *State, ins ssa.Instruction, callee *ssa.Fu
 	tb := x.tb
 	z := tb.BVInt(0, 64)
 	// contract prelude (per package): functions declared in the generated stub
+	if callee.Pkg != nil && inModule(callee) && isSpecBody(callee) && len(args) == 1 && args[0].Clo != nil {
+		clo := args[0].Clo
+		switch {
+		case strings.HasPrefix(callee.Name(), "atOld") && len(clo.Fn.Params) == 0:
+			// atOldX(func() X { ... }): the value of the expression in the pre-state
+			nf := x.newFrame(clo.Fn, fr)
+			nf.spec = true
+			nf.bindings = clo.Bindings
+			sub := x.oldState(fr).clone()
+			sub.reach = tb.True
+			sub.pc = nil
+			// references met while evaluating are allocated now (not necessarily in the pre-state)
+			sub.heap["g:now"] = x.now(st)
+			// variables captured by the closure live in boxes of the current state
+			for c, h := range st.heap {
+				if strings.HasPrefix(c, "b:") {
+					sub.heap[c] = h
+				}
+			}
+			ex, r := x.runFunc(nf, sub)
+			if !ex.reach.IsTrue() {
+				x.assume(st, ex.reach)
+			}
+			r.T = resT
+			return r, true
+		case strings.HasPrefix(callee.Name(), "forall") && len(clo.Fn.Params) == 1:
+			// forallT(func(t *T) bool { ... }): quantification over all objects of type T
+			if _, isPtr := clo.Fn.Params[0].Type().Underlying().(*types.Pointer); isPtr {
+				r := tb.BoundVar("r", tb.BV(64))
+				nf := x.newFrame(clo.Fn, fr)
+				nf.spec = true
+				nf.bindings = clo.Bindings
+				nf.vals[clo.Fn.Params[0]] = x.ptrToObj(clo.Fn.Params[0].Type(), r)
+				sub := st.clone()
+				sub.reach = tb.True
+				sub.pc = nil
+				ex, body := x.runFunc(nf, sub)
+				guard := tb.And(x.nonNil(r), x.allocAt(x.now(x.oldState(fr)), r))
+				x.assumeForall(st, r, guard, ex.reach, nil, nil)
+				return Val{T: resT, L: []*Term{tb.Forall([]*Term{r}, tb.Implies(guard, body.L[0]))}}, true
+			}
+		}
+	}
 	if callee.Pkg != nil && inModule(callee) {
 		switch callee.Name() {
 		case "forall", "exists":
@@ -685,17 +739,21 @@ func (x *Exec) special(fr *Frame, st *State, ins ssa.Instruction, callee *ssa.Fu
 		case "fresharr":
 			if isSpecBody(callee) {
 				old := x.oldState(fr)
-				al := x.heapGet(old, "g:alloc", tb.Array(tb.BV(64), tb.Bool))
-				return Val{T: resT, L: []*Term{tb.And(x.nonNil(args[0].L[0]), tb.Not(tb.Select(al, args[0].L[0])))}}, true
+				return Val{T: resT, L: []*Term{tb.And(x.nonNil(args[0].L[0]), tb.Not(x.allocAt(x.now(old), args[0].L[0])))}}, true
+			}
+		case "freshobj":
+			if isSpecBody(callee) {
+				old := x.oldState(fr)
+				ref := x.lockRef(args[0])
+				return Val{T: resT, L: []*Term{tb.And(x.nonNil(ref), tb.Not(x.allocAt(x.now(old), ref)))}}, true
 			}
 		case "bytesUnchanged", "bytesUnchangedExcept":
 			if isSpecBody(callee) {
 				old := x.oldState(fr)
-				al := x.heapGet(old, "g:alloc", tb.Array(tb.BV(64), tb.Bool))
 				a := tb.BoundVar("a", tb.BV(64))
 				k := tb.BoundVar("k", tb.BV(64))
 				same := tb.Eq(tb.Select(tb.Select(x.bytesHeap(st), a), k), tb.Select(tb.Select(x.bytesHeap(old), a), k))
-				cond := tb.Select(al, a)
+				cond := x.allocAt(x.now(old), a)
 				if callee.Name() == "bytesUnchangedExcept" {
 					s := args[0]
 					lo := tb.Add(s.L[1], args[1].L[0])
@@ -772,9 +830,9 @@ func (x *Exec) special(fr *Frame, st *State, ins ssa.Instruction, callee *ssa.Fu
 		if args[1].Clo != nil && !fr.spec {
 			g := tb.Fresh("once", tb.Bool)
 			on := st.clone()
-			x.assume(on, g)
+			x.branch(on, g)
 			off := st.clone()
-			x.assume(off, tb.Not(g))
+			x.branch(off, tb.Not(g))
 			x.callStatic(fr, on, ins, args[1].Clo.Fn, nil, args[1].Clo.Bindings, types.NewTuple())
 			m := x.mergeStates([]*State{on, off})
 			*st = *m
@@ -799,11 +857,11 @@ func (x *Exec) special(fr *Frame, st *State, ins ssa.Instruction, callee *ssa.Fu
 		// succeeds iff the location holds `old` at this instant; then writes `new`
 		ok := tb.Fresh("cas_ok", tb.Bool)
 		on := st.clone()
-		x.assume(on, ok)
+		x.branch(on, ok)
 		x.store(fr, on, args[0], args[2], ins)
 		x.ghostAtomic(fr, on, ins, "cas", args[1].L[0], args[2].L[0])
 		off := st.clone()
-		x.assume(off, tb.Not(ok))
+		x.branch(off, tb.Not(ok))
 		m := x.mergeStates([]*State{on, off})
 		*st = *m
 		return Val{T: resT, L: []*Term{ok}}, true
@@ -895,6 +953,32 @@ func (x *Exec) oldState(fr *Frame) *State {
 	panic("two-state predicate outside a postcondition")
 }
 
+// assumeForall: fact was collected while evaluating a quantifier body for an arbitrary value of the
+// bound variable satisfying guard (outside the guard the body may not be total: a nil
+// dereference or an index out of range leaves the evaluation, so nothing is known there).
+// Conjuncts that do not mention bound variables hold as they are.
+func (x *Exec) assumeForall(st *State, bound *Term, guard *Term, fact *Term, lo, hi *Term) {
+	if fact.IsTrue() {
+		return
+	}
+	if fact.Op == "and" {
+		for _, a := range fact.Args {
+			x.assumeForall(st, bound, guard, a, lo, hi)
+		}
+		return
+	}
+	if !fact.open {
+		x.assume(st, fact)
+		return
+	}
+	if lo != nil {
+		bv, rng, b := x.tb.reindex(bound, lo, hi, fact)
+		x.assume(st, x.tb.Forall([]*Term{bv}, x.tb.Implies(rng, b)))
+		return
+	}
+	x.assume(st, x.tb.Forall([]*Term{bound}, x.tb.Implies(guard, fact)))
+}
+
 func (x *Exec) quantifier(fr *Frame, st *State, exists bool, args []Val, resT types.Type) Val {
 	tb := x.tb
 	clo := args[2].Clo
@@ -909,7 +993,13 @@ func (x *Exec) quantifier(fr *Frame, st *State, exists bool, args []Val, resT ty
 	nf.vals[clo.Fn.Params[0]] = Val{T: clo.Fn.Params[0].Type(), L: []*Term{k}}
 	sub := st.clone()
 	sub.reach = tb.True
-	_, body := x.runFunc(nf, sub)
+	sub.pc = nil
+	ex, body := x.runFunc(nf, sub)
+	// facts collected while evaluating the (total) body hold for every value of the bound variable
+	{
+		lo, hi := args[0].L[0], args[1].L[0]
+		x.assumeForall(st, k, tb.And(tb.SLe(lo, k), tb.SLt(k, hi)), ex.reach, lo, hi)
+	}
 	// quantify over the absolute element index when the body reads slice elements at off+k, so
 	// that the plain element read is the instantiation pattern
 	bv, rng, b := tb.reindex(k, args[0].L[0], args[1].L[0], body.L[0])
@@ -942,6 +1032,7 @@ func (x *Exec) runSpec2(fn *ssa.Function, st *State, old *State, args []Val) Val
 	}
 	sub := st.clone()
 	sub.reach = x.tb.True
+	sub.pc = nil
 	ex, res := x.runFunc(nf, sub)
 	// Facts collected while evaluating the (total) spec function - well-formedness of loaded
 	// values, freshness of objects the stub allocates - are true by construction; the clause
